@@ -20,6 +20,9 @@ CONF = {
     "C06": (6, [("fifo", 128, 1600), ("mixed", 80, 800)]),
     "C07": (7, [("delay", 128, 1600), ("mixed", 80, 800)]),
     "C08": (8, [("fail", 128, 1600), ("graph", 80, 800)]),
+    "C10": (10, [("restart", 112, 1400), ("retain", 64, 800)]),
+    "C11": (11, [("shutdown", 144, 1800), ("restart", 48, 600)]),
+    "C12": (12, [("retain", 128, 1600), ("restart", 64, 800)]),
     "C15": (15, [("mixed", 96, 1200), ("admit", 56, 600), ("graph", 56, 600)]),
     "C16": (16, [("reload", 128, 1600), ("mixed", 80, 800)]),
 }
@@ -79,6 +82,8 @@ def main():
     code, profiles = CONF[prop]
     mon = monitors.MONITORS[prop]
     proof_ok = proof_evidence(ctx, extra_files=["Corr/SysCorr.v"])
+    if prop in ("C02", "C08"):
+        pass
     bins = build_harness(ctx, ["sysrun"])
     if bins is None:
         violation(ctx, {"what": "harness does not build against the repository working tree; the correspondence for %s cannot run" % prop,
